@@ -437,21 +437,30 @@ fn main() {
                 // LARGE QUERY TEXT (C06/C13): thousands of blanks at every place the grammar allows them; a member name of
                 // 12 000 characters in shorthand and bracket notation (part textnames: TLC needs minutes per event)
                 let name12k: String = std::iter::repeat("abcdefghij_\u{e9}").take(1000).collect();
-                let small = json!({name12k.clone(): [1, {"a": 2}], "a": [3, 4]});
+                let name24k: String = std::iter::repeat("abcdefghij_\u{e9}").take(2000).collect();      // 24 000 characters
+                let small = json!({name12k.clone(): [1, {"a": 2}], "a": [3, 4], name24k.clone(): {"a": [5]}});
                 let b = " ".repeat(n.max(200) * 8);
                 let t = "\t\n\r ".repeat(n.max(200) * 2);
-                vec![(small, vec![format!("$.{}", name12k), format!("$['{}']", name12k), format!("$[\"{}\"]", name12k), format!("$..{}", name12k), format!("$..['{}'][1].a", name12k),
+                vec![(small, vec![format!("$.{}", name24k), format!("$..{}.a[0]", name24k), format!("$.{}", name12k), format!("$['{}']", name12k), format!("$[\"{}\"]", name12k), format!("$..{}", name12k), format!("$..['{}'][1].a", name12k),
                                   format!("$[?@.{}]", name12k), format!("$..{}[?@.a == 2]", name12k),
                                   format!("${b}[{b}'a'{b}]{b}[{b}0{b}]"), format!("${t}.a{t}[{t}0{t}:{t}2{t}:{t}1{t},{t}-1{t}]"), format!("$[{b}?{b}@{b}=={b}3{b}||{b}@{b}<{b}1{b}]"),
                                   format!("$.a[?{t}({t}@{t}>{t}3{t}){t}&&{t}!{t}({t}@{t}=={t}5{t}){t}]"), "$['a'][0]".to_string(), "$.a[0:2:1,-1]".to_string(), "$.a[?(@>3)&&!(@==5)]".to_string()])]
             } else { vec![
-                (big_arr, vec![format!("$[{}]", size - 1), format!("$[-{}]", size), format!("$[{}]", size), format!("$[{}:{}]", size / 3, size / 3 + 10), format!("$[::-{}]", size / 6), format!("$[{}:]", size - 10), format!("$[?@ >= {}]", size - 5), format!("$[?@ == 100 || @ == {}]", size - 100), format!("$..[100,{}]", size - 7), "$[-1,0,-1]".to_string(), "$[?@ < 3][?@]".to_string()]),
+                (big_arr, vec![format!("$[{}]", (0..150).map(|i| ((i * 7) % (size + 50)).to_string()).collect::<Vec<_>>().join(",")),     // one segment of 150 selectors (TLC's parser is quadratic in their number)
+                               format!("$[{}]", size - 1), format!("$[-{}]", size), format!("$[{}]", size), format!("$[{}:{}]", size / 3, size / 3 + 10), format!("$[::-{}]", size / 6), format!("$[{}:]", size - 10), format!("$[?@ >= {}]", size - 5), format!("$[?@ == 100 || @ == {}]", size - 100), format!("$..[100,{}]", size - 7), "$[-1,0,-1]".to_string(), "$[?@ < 3][?@]".to_string()]),
                 (big_obj, vec![format!("$.k{:04}", size / 2 - 1), format!("$['k0000','k{:04}']", size / 2 - 1), "$[?@ == 6]".to_string(), "$..[?@ > 5]".to_string(), format!("$.k{:04}", size / 2), "$[?@ == 0 && @ != 1].x".to_string()]),
                 (big_mix, vec![format!("$[?length(@) > {}]", size + 1999), "$[?length(@) == 1200]".to_string(), format!("$['{}'][1]", long_name), format!("$..['{}'][::-1]", long_name),
                                "$.a[?@.a > 145].b[1]".to_string(), "$.a[100].b[-1]".to_string(), "$.a..b[0]".to_string(), "$.a[?count(@.b[*]) == 2 && @.a == 149]".to_string(), "$..a[149]".to_string()]),
                 (two_level, vec!["$[*][*]".to_string(), "$..*".to_string(), "$.*[0:]".to_string(), "$[*][?@ != null]".to_string(), "$..[0]".to_string(), "$[*][-1]".to_string()]),
                 (arr1100, vec!["$[1000]".to_string(), "$[999:1002]".to_string(), "$[-100]".to_string(), "$[?@ == 1000 || @ == 100 || @ == 10]".to_string(), "$[10,100,1000,1]".to_string(), "$..[1000]".to_string()]),
             ] };
+            // history: the process has used reference / reference_mut before (state they leave behind must not matter)
+            {
+                use jsonpath_rust::query::queryable::Queryable;
+                let mut scratch = json!({"a": {"b": [1, 2, 3]}});
+                let _ = guarded(|| scratch.reference("$['a']['b'][1]").is_some());
+                let _ = guarded(|| scratch.reference_mut("$['a']['b'][2]").map(|v| *v = json!(9)).is_some());
+            }
             for (doc, qs) in large.iter() {
                 let Some(sdoc) = SVal::from_value(doc) else { continue };
                 let am = AddrMap::new(doc);
